@@ -163,4 +163,7 @@ MUTANTS = [
       "            if (ip - in_lo_exclusive - 1 < dw) {\n                goto cold_input;\n            }\n        after_input:\n\n            /* FLIP! */",
       "            if (ip > in_lo_exclusive && ip <= in_addr) {\n                goto cold_input;\n            }\n        after_input:\n\n            /* FLIP! */", None),
     M('C01', 'EQ measured C: operands swapped', C, "if (f <= out1 && f >= dw) {", "if (dw <= f && out1 >= f) {", None),
+    M('C01', 'reader word-address mask shifts the wrong way (mutation survey)', 'flipjump/fjm/fjm_reader.py', "    def _get_memory_word(self, word_address: int) -> int:\n        word_address &= (1 << self.memory_width) - 1", "    def _get_memory_word(self, word_address: int) -> int:\n        word_address &= (1 >> self.memory_width) - 1", 'C01.MASKS'),
+    M('C01', 'reader keeps one bit too many of a stored word (mutation survey)', 'flipjump/fjm/fjm_reader.py', "        value &= (1 << self.memory_width) - 1", "        value &= (2 << self.memory_width) - 1", 'C01.MASKS'),
+    M('C01', 'EQ reader masks spelled 2**w - 1', 'flipjump/fjm/fjm_reader.py', "        value &= (1 << self.memory_width) - 1", "        value &= 2 ** self.memory_width - 1", None),
 ]
